@@ -1,4 +1,7 @@
 """C12 — rank-aware samplers split one global epoch draw evenly and reproducibly."""
+import json
+
+from . import pgroup as PG
 from . import samplers as S
 from .common import coq
 
@@ -30,10 +33,30 @@ TRUSTED = [
     "DataLoader tie (Python only, no Coq model of torch's DataLoader): DataLoader(dataset, sampler=s, batch_size=b, "
     "drop_last, num_workers 0 (quick, thorough) / 2 (thorough)) delivers exactly the rank's stream cut by the batch "
     "size, also for the next epoch through the same loader object after set_epoch",
+    "default rank / world_size arguments: the model (C12.Model.resolve_rank_world / resolve_torch, pg_after) says they are "
+    "the explicit argument, else the process group's value AT CONSTRUCTION, else (0, 1) [torch's DistributedSampler: "
+    "else the constructor raises], independent of earlier queries (rank_resolution_independent_of_history - trivial in "
+    "Gallina: the model has no place to remember anything).  Tied to the code by PROCESS-GROUP HISTORIES "
+    "(harness/pgroup.py): every history runs in processes forked from a pristine server process (torch, kappadata, harness "
+    "imported, nothing called); 'sim' = one process with torch.distributed.is_available / is_initialized / get_rank / "
+    "get_world_size replaced by a simulated state (these four are what kappadata/utils/distributed.py and torch's "
+    "DistributedSampler consult through the module attribute; code that binds them otherwise is seen only by 'gloo'); "
+    "'gloo' = 2..3 real processes in real gloo groups (file:// rendezvous, loopback, barrier after init / before destroy), "
+    "re-initialised with permuted ranks / fewer members.  Every sampler built in a history is compared (stream, len, "
+    "seeds, draws) with the sampler built with the explicit (rank, world size) in the harness process, and replayed "
+    "through w_built / cb_built / dist_built in Coq",
+    "structural check of kappadata/utils/distributed.py by RUN-TIME INSPECTION (no translator): no function of the module "
+    "is a functools caching wrapper (cache_info / cache_clear / cache along __wrapped__), a closure or a non-function "
+    "callable, no module-level dict / list / set / bytearray; a cache kept in a rebindable module global is invisible "
+    "to this inspection and is caught by the histories only",
     "runaway guard: a sampler run is abandoned after %g s of process CPU time (ITIMER_VIRTUAL) or %g s wall "
     "(ITIMER_REAL fallback) or %d draws and reported as 'iteration does not return'" % (S.CPU_LIMIT, S.WALL_LIMIT, S.MAX_DRAWS),
 ]
 ASSUMPTIONS = ["world size W >= 1, rank < W, num_repeats >= 1; num_repeats > 1 requires shuffle (the code asserts it)",
+               "process-group histories: the resolved rank is < the resolved world size (a default rank next to an explicit "
+               "smaller world_size is outside the domain for ClassBalancedSampler / WeightedSampler, which do not check; "
+               "torch's DistributedSampler raises ValueError there, which is checked); dist.is_available() False together "
+               "with an initialised group occurs in simulated histories only",
                "RandomSampler: num_samples=None, explicit generator, n >= 1",
                "WeightedSampler: 1 <= size <= n or None, n >= 1; ClassBalancedSampler in C12: only the rank split "
                "(composition is C13)",
@@ -48,7 +71,12 @@ RULE = ("dist 55% / cb 15% / weighted 15% / rand 15%; n in 0..25 (thorough ..60)
         "a non-empty merged stream; distinct by (kind, n, W, rep, drop_last, shuffle, epoch, #calls); every non-rand case "
         "also drives ONE object of a random rank through 2..5 list(sampler) calls with set_epoch(e') / back to e / no "
         "set_epoch in between; plus 40 (thorough 340) samplers behind a real DataLoader (batch 1..7, drop_last on/off, "
-        "workers 0, thorough also 2)")
+        "workers 0, thorough also 2); 12% of the non-rand cases also carry a PROCESS-GROUP HISTORY of 3..10 steps (init as "
+        "rank r of W / destroy / is_available off-on / kappadata rank queries / throwaway samplers / the case's sampler "
+        "built with default, explicit or mixed rank and world_size under epochs 0..3), 70% simulated in one process (W in "
+        "1..7), 30% in 2..3 real gloo processes; plus 11 directed schedules per kind (build after init, each kind of "
+        "query / preview / build before init, destroy + join another group, explicit arguments inside a group) and one "
+        "structural inspection of kappadata/utils/distributed.py")
 
 
 def gen_ops(rng, epoch):
@@ -76,8 +104,32 @@ def with_ops(rng, case):
     return case
 
 
+PG_FRACTION = 0.12     # share of the non-rand cases that also carry a process-group history
+
+
+def with_pg(rng, case, p=PG_FRACTION):
+    if case["kind"] != "rand" and rng.random() < p:
+        case["pg"] = PG.gen_pg(rng, case["kind"], case["epoch"])
+    return case
+
+
 def gen_case(rng, big=False):
-    return with_ops(rng, gen_case0(rng, big))
+    return with_pg(rng, with_ops(rng, gen_case0(rng, big)))
+
+
+def gen_directed_pg(rng):
+    """the plain schedules (build after init; something asked / built before init; destroy and join another group;
+    explicit arguments inside a group) for one small sampler of every rank-aware kind"""
+    out = []
+    for base in ({"kind": "dist", "n": 11, "W": 2, "shuffle": True, "seed": rng.randrange(1000), "epoch": 1,
+                  "drop_last": rng.random() < 0.5, "rep": rng.choice([1, 2])},
+                 {"kind": "weighted", "n": 9, "weights": [1.0, 2.0, 0.5] * 3, "size": None, "seed": rng.randrange(1000),
+                  "epoch": 1, "W": 2},
+                 {"kind": "cb", "classes": [0, 1, 2, 1, 0, 2, 2], "dim": 3, "spc": None, "shuffle": True,
+                  "seed": rng.randrange(1000), "epoch": 1, "W": 2}):
+        for pg in PG.directed(base["kind"], base["epoch"]):
+            out.append({**base, "pg": pg})
+    return out
 
 
 def gen_case0(rng, big=False):
@@ -120,9 +172,10 @@ def gen_case0(rng, big=False):
 
 
 def gen_cases(rng, tier):
+    head = [{"kind": "structure", "W": 1}] + gen_directed_pg(rng)
     if tier == "quick":
-        return [gen_case(rng) for _ in range(900)] + [gen_loader(rng, 0) for _ in range(40)]
-    return ([gen_case(rng) for _ in range(6000)] + [gen_case(rng, big=True) for _ in range(2500)]
+        return head + [gen_case(rng) for _ in range(900)] + [gen_loader(rng, 0) for _ in range(40)]
+    return (head + [gen_case(rng) for _ in range(6000)] + [gen_case(rng, big=True) for _ in range(2500)]
             + [gen_loader(rng, 0) for _ in range(300)] + [gen_loader(rng, 2) for _ in range(40)])
 
 
@@ -134,11 +187,20 @@ def search_cases(rng, tier):
                 for dl in (False, True):
                     yield {"kind": "dist", "n": n, "W": W, "shuffle": True, "seed": 0, "epoch": 0, "drop_last": dl,
                            "rep": rep}
+    yield {"kind": "structure", "W": 1}
+    for c in gen_directed_pg(rng):
+        yield c
     for _ in range(20000):
-        yield gen_case(rng, big=rng.random() < 0.3)
+        yield with_pg(rng, with_ops(rng, gen_case0(rng, big=rng.random() < 0.3)), p=0.4)
 
 
 def shrink(c):
+    if c["kind"] == "structure":
+        return
+    if c.get("pg"):
+        yield {k: v for k, v in c.items() if k != "pg"}
+        for cand in PG.shrink_pg(c["kind"], c["pg"]):
+            yield {**c, "pg": cand}
     if c["kind"] == "loader":
         sc = c["sampler"]
         for cand in shrink(sc):
@@ -249,6 +311,9 @@ def oracle_loader(case, obs):
 def run_impl(case):
     if case["kind"] == "loader":
         return run_loader(case)
+    if case["kind"] == "structure":
+        S.guarded(lambda: None)      # imports
+        return {"remarks": PG.inspect_distributed()}
     W = case["W"]
     run_rank = S.run_rank_guarded
     obs = {"ranks": [], "G": [], "hist": None}
@@ -278,6 +343,9 @@ def run_impl(case):
         for ep in sorted(set(iter_epochs(case["ops"]))):
             f = run_rank(case, hr, W, epoch=ep)
             obs["fresh"][str(ep)] = {"stream": f["stream"], "result": f["result"]}
+    # samplers built with default rank / world_size arguments in processes with a process-group history
+    if case.get("pg"):
+        obs["pg"] = PG.run_pg(case, case["pg"], run_rank)
     return obs
 
 
@@ -345,6 +413,18 @@ def oracle(case, obs):
         return "harness exception: " + obs["harness_exception"] + obs.get("tb", "")
     if case["kind"] == "loader":
         return oracle_loader(case, obs)
+    if case["kind"] == "structure":
+        if obs["remarks"]:
+            return ("kappadata/utils/distributed.py must answer from the CURRENT state of torch.distributed, nothing "
+                    "may be remembered between calls: " + "; ".join(obs["remarks"]))
+        return None
+    msg = oracle0(case, obs)
+    if msg is None and case.get("pg"):
+        msg = PG.oracle_pg(case, case["pg"], obs.get("pg") or {"error": "history not run (a rank ran away)"})
+    return msg
+
+
+def oracle0(case, obs):
     W, k = case["W"], case["kind"]
     ranks = obs["ranks"]
     exp = expected_result(case)
@@ -423,7 +503,7 @@ def oracle(case, obs):
 
 
 def coq_applicable(case, obs):
-    if "harness_exception" in obs or case["kind"] == "loader":
+    if "harness_exception" in obs or case["kind"] in ("loader", "structure"):
         return False
     if len(obs["ranks"]) != case["W"]:      # a rank ran away: reported by the oracle, nothing to compare
         return False
@@ -437,7 +517,8 @@ def coq_case(case, obs):
         hist = S.coq_hist(case.get("ops_rank", 0), case["ops"], obs["hist"])
     else:
         hist = (S.Nat(0), S.Raw("[]"))
-    return coq((S.coq_cfg(case), [S.coq_rank(o) for o in obs["ranks"]], S.nats(obs["G"]), hist))
+    pgs = PG.coq_pgs(case["pg"], obs["pg"], S.coq_rank, S.CODE) if case.get("pg") and obs.get("pg") else []
+    return coq((S.coq_cfg(case), [S.coq_rank(o) for o in obs["ranks"]], S.nats(obs["G"]), hist, pgs))
 
 
 def features(case, obs):
@@ -447,6 +528,11 @@ def features(case, obs):
         yield "loader:sampler=" + case["sampler"]["kind"]
         yield "loader:workers=%d" % case["workers"]
         return
+    if case["kind"] == "structure":
+        return
+    if case.get("pg") and obs.get("pg"):
+        for f in PG.features_pg(case["pg"], obs["pg"]):
+            yield f
     if case.get("ops"):
         eps = iter_epochs(case["ops"])
         yield "ops:list(sampler) calls=%d" % len(eps)
@@ -476,6 +562,8 @@ def nontrivial_key(case, obs):
             return None
         return ("loader", sc["kind"], sc.get("n", len(sc.get("classes", []))), sc["W"], case["batch"],
                 case["drop_last_batch"], case["workers"])
+    if case.get("pg") and obs.get("pg") and any(rec["stream"] for _, _, _, _, rec in PG.builds(case["pg"], obs["pg"])):
+        return ("pg", case["kind"], json.dumps(case["pg"], sort_keys=True))
     if "ranks" not in obs or case["W"] < 2 or not any(o["stream"] for o in obs["ranks"]):
         return None
     return (case["kind"], case.get("n", len(case.get("classes", []))), case["W"], case.get("rep"),
